@@ -747,6 +747,160 @@ func (p *play) inspect(runDir string) {
 	}
 }
 
+// ------------------------------------------------------------------ two plays, one output directory
+
+type duo struct {
+	SameSecond bool // B is started within the second in which A started; else A (long, clean, --clear) overlaps a later, shorter B
+	DirKind    int
+	SetupOK    bool
+	Attempts   int
+	ExitA      int
+	ExitB      int
+	NRuns      int
+	AOwn       bool
+	LatestToB  bool
+	AGone      bool
+	Note       string
+	OutA, OutB string
+}
+
+func duoCfg(actor, body string) string {
+	return "role r\n  :work " + body + "\nend\ncast\n  " + actor + " plays r\nend\nscript\n  tempo 30ms\n" +
+		"  scene a entails for " + actor + ": work\n  storyline a\nend\n"
+}
+
+func startPlay(bin, cwd string, env, args []string, out *string) (*exec.Cmd, chan int) {
+	cm := exec.Command(bin, args...)
+	cm.Dir = cwd
+	cm.Env = env
+	var buf strings.Builder
+	cm.Stdout, cm.Stderr = &buf, &buf
+	must(cm.Start())
+	done := make(chan int, 1)
+	go func() {
+		err := cm.Wait()
+		*out = buf.String()
+		if len(*out) > 1200 {
+			*out = (*out)[:1200]
+		}
+		code := 0
+		if err != nil {
+			code = 1
+			if ee, ok := err.(*exec.ExitError); ok {
+				code = ee.ExitCode()
+			}
+		}
+		done <- code
+	}()
+	return cm, done
+}
+
+func runDirsOf(absOut string) []string {
+	var out []string
+	ents, _ := ioutil.ReadDir(absOut)
+	for _, e := range ents {
+		if e.IsDir() && runIDRe.MatchString(e.Name()) {
+			out = append(out, filepath.Join(absOut, e.Name()))
+		}
+	}
+	return out
+}
+
+func exists(p string) bool { _, err := os.Lstat(p); return err == nil }
+
+func (d *duo) run(bin, base string) {
+	for d.Attempts = 1; d.Attempts <= 6 && !d.SetupOK; d.Attempts++ {
+		root := filepath.Join(base, "try"+strconv.Itoa(d.Attempts))
+		cwd := filepath.Join(root, "cwd")
+		for _, x := range []string{cwd, filepath.Join(root, "home"), filepath.Join(root, "tmp")} {
+			must(os.MkdirAll(x, 0755))
+		}
+		env := []string{"PATH=/usr/bin:/bin", "HOME=" + filepath.Join(root, "home"), "TMPDIR=" + filepath.Join(root, "tmp"), "SHELL=/bin/bash", "LANG=C"}
+		dataDir := []string{".", "out", "a/b/out", filepath.Join(root, "abs out")}[d.DirKind]
+		absOut := dataDir
+		if !filepath.IsAbs(dataDir) {
+			absOut = filepath.Join(cwd, dataDir)
+		}
+		if d.SameSecond {
+			must(ioutil.WriteFile(filepath.Join(cwd, "a.cfg"), []byte(duoCfg("alice", "echo evidence >evidence.txt; sleep 0.5; false")), 0644))
+			must(ioutil.WriteFile(filepath.Join(cwd, "b.cfg"), []byte(duoCfg("bob", "echo b >b.txt; sleep 1.2")), 0644))
+			for time.Now().Nanosecond() > 80000000 {
+				time.Sleep(5 * time.Millisecond)
+			}
+			_, da := startPlay(bin, cwd, env, []string{"-q", "--disable-plots", "-o", dataDir, "a.cfg"}, &d.OutA)
+			time.Sleep(150 * time.Millisecond)
+			_, db := startPlay(bin, cwd, env, []string{"-q", "--disable-plots", "-o", dataDir, "b.cfg"}, &d.OutB)
+			d.ExitA, d.ExitB = <-da, <-db
+			runs := runDirsOf(absOut)
+			d.NRuns = len(runs)
+			if len(runs) != 1 {
+				d.Note = "the two plays did not start within the same second"
+				os.RemoveAll(root)
+				continue
+			}
+			r := runs[0]
+			if !exists(filepath.Join(r, "csv", "alice.csv")) && !exists(filepath.Join(r, "artifacts", "alice")) && d.ExitB == 0 {
+				d.Note = "the first play lost the race for the run directory"
+				os.RemoveAll(root)
+				continue
+			}
+			d.SetupOK = true
+			d.Note = ""
+			b, _ := ioutil.ReadFile(filepath.Join(r, "result.js"))
+			foul := strings.Contains(string(b), "\"Foul\": true")
+			d.AOwn = exists(filepath.Join(r, "artifacts", "alice", "evidence.txt")) && foul &&
+				!exists(filepath.Join(r, "artifacts", "bob")) && !exists(filepath.Join(r, "csv", "bob.csv"))
+			if !d.AOwn {
+				d.Note = fmt.Sprintf("in %s: alice's evidence.txt there: %v, result.js Foul true: %v, artifacts/bob there: %v, csv/bob.csv there: %v",
+					filepath.Base(r), exists(filepath.Join(r, "artifacts", "alice", "evidence.txt")), foul,
+					exists(filepath.Join(r, "artifacts", "bob")), exists(filepath.Join(r, "csv", "bob.csv")))
+			}
+		} else {
+			must(ioutil.WriteFile(filepath.Join(cwd, "a.cfg"), []byte(duoCfg("alice", "echo a >a.txt; sleep 2.6")), 0644))
+			must(ioutil.WriteFile(filepath.Join(cwd, "b.cfg"), []byte(duoCfg("bob", "echo b >b.txt; sleep 0.1")), 0644))
+			_, da := startPlay(bin, cwd, env, []string{"-q", "--disable-plots", "--clear", "-o", dataDir, "a.cfg"}, &d.OutA)
+			time.Sleep(1300 * time.Millisecond)
+			var bEnd, aEnd time.Time
+			_, db := startPlay(bin, cwd, env, []string{"-q", "--disable-plots", "-o", dataDir, "b.cfg"}, &d.OutB)
+			d.ExitB = <-db
+			bEnd = time.Now()
+			nDuring := len(runDirsOf(absOut))
+			d.ExitA = <-da
+			aEnd = time.Now()
+			runs := runDirsOf(absOut)
+			d.NRuns = len(runs)
+			if nDuring != 2 || !aEnd.After(bEnd) {
+				d.Note = "the plays did not overlap as planned"
+				os.RemoveAll(root)
+				continue
+			}
+			d.SetupOK = true
+			d.Note = ""
+			var bDir string
+			for _, r := range runs {
+				if exists(filepath.Join(r, "csv", "bob.csv")) {
+					bDir = r
+				}
+			}
+			d.AGone = len(runs) == 1 && bDir != ""
+			if bDir != "" {
+				if t, err := filepath.EvalSymlinks(filepath.Join(absOut, "latest")); err == nil {
+					want, _ := filepath.EvalSymlinks(bDir)
+					d.LatestToB = t == want
+				}
+			}
+			if !d.LatestToB {
+				t, err := os.Readlink(filepath.Join(absOut, "latest"))
+				d.Note = fmt.Sprintf("latest -> %q (%v); the later run's directory: %s", t, err, filepath.Base(bDir))
+			}
+		}
+		os.RemoveAll(root)
+	}
+	if d.Attempts > 6 {
+		d.Attempts = 6
+	}
+}
+
 // covering returns rows (over the factor sizes) covering every t-way
 // combination of values, greedily, choosing among random candidates.
 func covering(rng *rand.Rand, sizes []int, t int) [][]int {
@@ -1038,6 +1192,28 @@ func main() {
 	}
 	wg.Wait()
 
+	// ---- two plays into one output directory (after the others: timing matters)
+	var duos []*duo
+	nDuo := 2
+	if thorough {
+		nDuo = 6
+	}
+	for i := 0; i < nDuo; i++ {
+		duos = append(duos, &duo{SameSecond: true, DirKind: 1 + (i+int(*seed))%3}, &duo{SameSecond: false, DirKind: 1 + (i+1+int(*seed))%3})
+	}
+	dsem := make(chan struct{}, 4)
+	for i, d := range duos {
+		i, d := i, d
+		wg.Add(1)
+		dsem <- struct{}{}
+		go func() {
+			defer wg.Done()
+			defer func() { <-dsem }()
+			d.run(*bin, filepath.Join(work, "duo"+strconv.Itoa(i)))
+		}()
+	}
+	wg.Wait()
+
 	// ---- write
 	var sb strings.Builder
 	var items []string
@@ -1091,9 +1267,19 @@ func main() {
 		items = append(items, fmt.Sprintf("(Build_tree_case %s %s %s %s)", coqNodes(c.Tree), vh.Bool(c.HasOther), coqPaths(c.Listed), coqPaths(c.Survived)))
 	}
 	sb.WriteString("Definition tree_cases : list tree_case := " + vh.ListNL(items) + ".\n")
+	items = nil
+	nDuoOK := 0
+	for _, d := range duos {
+		if d.SetupOK {
+			nDuoOK++
+		}
+		items = append(items, fmt.Sprintf("(Build_duo_case %s %s %s %s %d%%N %s %s %s)", vh.Bool(d.SameSecond), vh.Bool(d.SetupOK),
+			vh.Bool(d.ExitA != 0), vh.Bool(d.ExitB != 0), d.NRuns, vh.Bool(d.AOwn), vh.Bool(d.LatestToB), vh.Bool(d.AGone)))
+	}
+	sb.WriteString("Definition duo_cases : list duo_case := " + vh.ListNL(items) + ".\n")
 	vh.WriteFile(*out, "cases.v", sb.String())
 	vh.WriteJSON(*out, "cases.json", map[string]interface{}{
-		"clean": cleans, "join": joins, "abs": abss, "link": links, "range": ranges, "play": plays, "tree": trees})
+		"clean": cleans, "join": joins, "abs": abss, "link": links, "range": ranges, "play": plays, "tree": trees, "duo": duos})
 	// distribution
 	dist := map[string]int{}
 	nontriv := map[string]bool{}
@@ -1145,7 +1331,7 @@ func main() {
 	vh.WriteJSON(*out, "summary.json", map[string]interface{}{
 		"clean": len(cleans), "join": len(joins), "abs": len(abss), "link": len(links), "link_hook_errors": nLinkErr,
 		"range": len(ranges), "plays": len(plays), "play_distribution": dist,
-		"tree": len(trees), "trees_with_a_fifo": nTreeFifo,
+		"tree": len(trees), "trees_with_a_fifo": nTreeFifo, "duos": len(duos), "duos_with_the_planned_timing": nDuoOK,
 		"distinct_nontrivial": len(nontriv),
 		"samples": []interface{}{sample, links[2], ranges[len(ranges)-1]},
 	})
